@@ -320,13 +320,15 @@ def check(fx, rep, tier):
             t = T.term(n["args"][0], env, mutated)
             ok = False
             why = T.short(t)[:60]
-            for s in T.subterms(t):
-                if s[0] == "call" and isinstance(s[1], str) and F.strip_generics(s[1]).endswith("instruction_pointer"):
-                    ok = True
-                if s[0] == "field" and s[2] == "instruction_pointer":
-                    ok = True
-                if s[0] == "local" and str(s[2]) in ("instruction_pointer", "current_instruction"):
-                    ok = True  # a parameter carrying the pointer (checked at its callers by the same rule)
+            s = t
+            while s[0] == "cast":
+                s = s[1]
+            if s[0] == "call" and isinstance(s[1], str) and F.strip_generics(s[1]).endswith("instruction_pointer"):
+                ok = True
+            if s[0] == "field" and s[2] == "instruction_pointer":
+                ok = True
+            if s[0] == "local" and str(s[2]) in ("instruction_pointer", "current_instruction"):
+                ok = True  # a parameter carrying the pointer (checked at its callers by the same rule)
             if not ok and t[0] == "call" and isinstance(t[1], str) and F.strip_generics(t[1]).endswith("instructions_len"):
                 # "no current thread" errors: no instruction is executing; listed, not alarmed
                 listed += 1
